@@ -85,6 +85,24 @@ def handle (line : Json) : Json :=
       | .raised c => Json.mkObj [("r", "raised"), ("cls", c)]
       | .stuck w => Json.mkObj [("r", "stuck"), ("why", w)]
     Json.mkObj [("interp", interp), ("model", model), ("returned", resJson out.1)]
+  | "_verify" =>
+    let asy := boolD line "asynchop"
+    let dest : Option String := str? line "dest"
+    let addrs := strList line "addrs"
+    let ii := boolD line "ii"
+    let stOk := boolD line "st_ok"
+    let statusTop := if stOk then successUri else "urn:oasis:names:tc:SAML:2.0:status:Responder"
+    let r := run Sp.pyStrip (pyExt 0 (fun _ => 0) ii (statusExt statusTop "StatusError")) Gen.PyFuns.StatusResponse__verify
+      [selfVerify asy dest addrs]
+    let cfg : Sp.Cfg := { returnAddrs := addrs, skew := 0 }
+    let env : Sp.Env := { now := 0, asynchop := asy }
+    let resp : Sp.Response := { destination := dest, issueInstant := if ii then 0 else 1000000000, statusTop := statusTop }
+    let model : Result := match Sp.verifyEnvelope cfg env resp with
+      | .ok true => .value (.bool true)
+      | .ok false =>
+        if asy && Sp.truthy dest && !(addrs.contains (dest.getD "")) then .value .none else .value (.bool false)
+      | .error _ => .raised "StatusError"
+    Json.mkObj [("interp", resJson r), ("model", resJson model)]
   | _ => Json.mkObj [("interp", Json.mkObj [("r", "stuck"), ("why", "unknown function")])]
 
 def main : IO Unit := serve handle
